@@ -23,9 +23,42 @@ type fval struct {
 	// tuple results
 	tuple []fval
 	isNil bool
+	// struct value with (some) known fields; absent fields are unknown
+	fields map[string]fval
+	// address of (a field path inside) a local
+	addr *faddr
 }
 
-func (v fval) known() bool { return v.k != nil || v.fn != nil || v.isNil || v.tuple != nil }
+type faddr struct {
+	base *ssa.Alloc
+	path []string
+}
+
+func (v fval) known() bool {
+	return v.k != nil || v.fn != nil || v.isNil || v.tuple != nil || v.fields != nil || v.addr != nil
+}
+
+// structFval builds a struct value from a nested path map, e.g. {"Rat.Num": 0}.
+func structFval(paths map[string]fval) fval {
+	root := fval{fields: map[string]fval{}}
+	for p, v := range paths {
+		parts := strings.Split(p, ".")
+		cur := root
+		for i, part := range parts {
+			if i == len(parts)-1 {
+				cur.fields[part] = v
+				break
+			}
+			nx, ok := cur.fields[part]
+			if !ok || nx.fields == nil {
+				nx = fval{fields: map[string]fval{}}
+				cur.fields[part] = nx
+			}
+			cur = nx
+		}
+	}
+	return root
+}
 func (v fval) String() string {
 	switch {
 	case v.k != nil:
@@ -77,6 +110,7 @@ func (f *folder) foldCall(fn *ssa.Function, args []fval) (fval, error) {
 		return top, fmt.Errorf("call depth exceeded at %s", fname(fn))
 	}
 	env := map[ssa.Value]fval{}
+	mem := map[*ssa.Alloc]fval{}
 	for i, p := range fn.Params {
 		if i < len(args) {
 			env[p] = args[i]
@@ -124,7 +158,52 @@ func (f *folder) foldCall(fn *ssa.Function, args []fval) (fval, error) {
 				continue
 			case *ssa.BinOp:
 				env[x] = foldBinOp(x.Op, f.val(env, x.X), f.val(env, x.Y), x.Type())
+			case *ssa.Alloc:
+				env[x] = fval{addr: &faddr{base: x}}
+			case *ssa.Store:
+				if a := f.val(env, x.Addr); a.addr != nil && len(a.addr.path) == 0 {
+					mem[a.addr.base] = f.val(env, x.Val)
+				} else if a.addr != nil {
+					// store into a field: forget what we knew about the local
+					delete(mem, a.addr.base)
+				}
+			case *ssa.FieldAddr:
+				if a := f.val(env, x.X); a.addr != nil {
+					name, _, _ := fieldName(x)
+					env[x] = fval{addr: &faddr{base: a.addr.base, path: append(append([]string{}, a.addr.path...), name)}}
+				} else {
+					env[x] = top
+				}
+			case *ssa.Field:
+				if sv := f.val(env, x.X); sv.fields != nil {
+					name, _, _ := fieldName(x)
+					if fv, ok := sv.fields[name]; ok {
+						env[x] = fv
+					} else {
+						env[x] = top
+					}
+				} else {
+					env[x] = top
+				}
 			case *ssa.UnOp:
+				if x.Op == token.MUL {
+					if a := f.val(env, x.X); a.addr != nil {
+						cur, ok := mem[a.addr.base]
+						for _, part := range a.addr.path {
+							if !ok || cur.fields == nil {
+								ok = false
+								break
+							}
+							cur, ok = cur.fields[part]
+						}
+						if ok {
+							env[x] = cur
+						} else {
+							env[x] = top
+						}
+						continue
+					}
+				}
 				env[x] = foldUnOp(x, f.val(env, x.X))
 			case *ssa.Convert:
 				env[x] = foldConvert(f.val(env, x.X), x.Type())
